@@ -140,7 +140,7 @@ def cases(tier, seed):
     n = len(space.U0())
     for i in range(n):
         out.append({"k": "band", "i": i})
-    for i in range(0, n, 13):
+    for i in range(0, n, 13 if tier == "quick" else 1):
         out.append({"k": "pairs", "i": i})
     for i in range(0, n, 8):
         out.append({"k": "forms", "i": i})
